@@ -704,6 +704,8 @@ def frame_column(I, st, frame, name, txt=''):
 def subscript(I, st, base, idx, txt):
     if isinstance(base, VObj) and base.cls == 'DataFrame' and isinstance(idx, VStr):
         return frame_column(I, st, base, idx, txt)
+    if isinstance(base, VObj) and base.cls == 'Table':
+        return table_subscript(I, st, base, idx)
     if isinstance(base, VObj) and base.cls in ('ColumnsFrame', 'dictlit') and isinstance(idx, VStr) and idx.concrete() in base.fields:
         return base.fields[idx.concrete()]
     return None
@@ -1432,3 +1434,145 @@ def m_list_pop(I, st, s, *a):
 
 
 _METHODS[(VSeq, 'pop')] = m_list_pop
+
+
+# ----------------------------------------------------------------------------- small pandas tables (C18)
+# Table = VObj('Table', keys: list[str], vals: list[real]) : a two-column frame (name, score) with a RangeIndex.
+MEDIAN_OF = None
+
+
+def _table_syms():
+    from . import sym as _sym
+    global MEDIAN_OF
+    if MEDIAN_OF is None:
+        P = _sym.PSTR
+        MEDIAN_OF = z3.Function('median_of_group', z3.ArraySort(z3.IntSort(), P), z3.ArraySort(z3.IntSort(), z3.RealSort()),
+                                z3.IntSort(), P, z3.RealSort())
+    return MEDIAN_OF
+
+
+def _pairs_to_table(I, st, seq):
+    """pd.DataFrame(list of [name, score], columns=[...])"""
+    i = z3.Int('i!pairs')     # canonical bound name: the same list always yields the same column terms
+    el = from_term(seq.arr[i], seq.ek)
+    keys = VSeq('pstr', seq.length, z3.Lambda([i], el.items[0].t), flavor='list')
+    vals = VSeq('real', seq.length, z3.Lambda([i], to_term(el.items[1], 'real')), flavor='list')
+    return VObj('Table', {'keys': materialize(I, st, keys), 'vals': materialize(I, st, vals)})
+
+
+_pd_df_prev = _FUNCS['pandas.DataFrame']
+
+
+def _pd_dataframe(I, st, args, kwargs):
+    if args and isinstance(args[0], VSeq) and isinstance(args[0].ek, tuple) and args[0].ek[0] == 'tuple' and len(args[0].ek) == 3:
+        return _pairs_to_table(I, st, args[0])
+    return _pd_df_prev(I, st, args, kwargs)
+
+
+_FUNCS['pandas.DataFrame'] = _pd_dataframe
+
+
+@objmethod('Table', 'groupby')
+def tbl_groupby(I, st, t, col, **kw):
+    if kw.get('sort') is not None and not z3.is_true(z3.simplify(I.truth(kw['sort'], st))):
+        return VObj('GroupBy', {'table': t, 'sorted_keys': VBool(False)})
+    return VObj('GroupBy', {'table': t, 'sorted_keys': VBool(True)})
+
+
+@objmethod('GroupBy', 'median')
+def grp_median(I, st, g):
+    """groupby(name).median(): one row per distinct name (ascending by name unless sort=False), value = median of its scores."""
+    from . import sym as _sym
+    t = g.fields['table']
+    K, Vv = t.fields['keys'], t.fields['vals']
+    M = _table_syms()
+    n = z3.Int(fresh_name('grp.len'))
+    G = z3.Array(fresh_name('grp.keys'), z3.IntSort(), _sym.PSTR)
+    S = z3.Array(fresh_name('grp.vals'), z3.IntSort(), z3.RealSort())
+    pos = z3.Function(fresh_name('grp.pos'), _sym.PSTR, z3.IntSort())
+    i, j = z3.Int(fresh_name('i')), z3.Int(fresh_name('j'))
+    I.assume(st, z3.And(n >= 0, n <= K.length, z3.Implies(K.length > 0, n > 0)))
+    I.assume(st, z3.ForAll([i], z3.Implies(z3.And(i >= 0, i < n), z3.And(
+        I.seq_member(K, VStr(G[i]), st), pos(G[i]) == i, S[i] == M(K.arr, Vv.arr, K.length, G[i]))), patterns=[G[i]]))
+    I.assume(st, z3.ForAll([i], z3.Implies(z3.And(i >= 0, i < K.length), z3.And(pos(K.arr[i]) >= 0, pos(K.arr[i]) < n,
+                                                                            G[pos(K.arr[i])] == K.arr[i])), patterns=[K.arr[i]]))
+    if z3.is_true(z3.simplify(g.fields['sorted_keys'].t)):
+        I.assume(st, z3.ForAll([i, j], z3.Implies(z3.And(i >= 0, i < j, j < n), _sym.PLE(G[i], G[j])),
+                               patterns=[z3.MultiPattern(G[i], G[j])]))
+    return VObj('Table', {'keys': VSeq('pstr', n, G, flavor='list'), 'vals': VSeq('real', n, S, flavor='list')})
+
+
+@objmethod('Table', 'reset_index')
+def tbl_reset_index(I, st, t, **kw):
+    return t
+
+
+@objmethod('Table', 'sort_values')
+def tbl_sort_values(I, st, t, **kw):
+    """sort_values(by=<score column>, ascending=False|True): a permutation of the rows ordered by score."""
+    asc = kw.get('ascending')
+    ascending = True if asc is None else z3.is_true(z3.simplify(I.truth(asc, st)))
+    K, Vv = t.fields['keys'], t.fields['vals']
+    n = K.length
+    from . import sym as _sym
+    G = z3.Array(fresh_name('srt.keys'), z3.IntSort(), _sym.PSTR)
+    S = z3.Array(fresh_name('srt.vals'), z3.IntSort(), z3.RealSort())
+    pi = z3.Function(fresh_name('srt.perm'), z3.IntSort(), z3.IntSort())
+    pinv = z3.Function(fresh_name('srt.perminv'), z3.IntSort(), z3.IntSort())
+    i, j = z3.Int(fresh_name('i')), z3.Int(fresh_name('j'))
+    I.assume(st, z3.ForAll([i], z3.Implies(z3.And(i >= 0, i < n), z3.And(
+        pi(i) >= 0, pi(i) < n, G[i] == K.arr[pi(i)], S[i] == Vv.arr[pi(i)], pinv(pi(i)) == i)), patterns=[G[i], S[i]]))
+    I.assume(st, z3.ForAll([i], z3.Implies(z3.And(i >= 0, i < n), z3.And(
+        pinv(i) >= 0, pinv(i) < n, pi(pinv(i)) == i, G[pinv(i)] == K.arr[i], S[pinv(i)] == Vv.arr[i])),
+        patterns=[pinv(i), K.arr[i], Vv.arr[i]]))
+    order = (lambda a, b: a <= b) if ascending else (lambda a, b: a >= b)
+    I.assume(st, z3.ForAll([i, j], z3.Implies(z3.And(i >= 0, i < j, j < n), order(S[i], S[j])), patterns=[z3.MultiPattern(S[i], S[j])]))
+    return VObj('Table', {'keys': VSeq('pstr', n, G, flavor='list'), 'vals': VSeq('real', n, S, flavor='list')})
+
+
+@objmethod('Table', 'iterrows')
+def tbl_iterrows(I, st, t):
+    K, Vv = t.fields['keys'], t.fields['vals']
+    i = z3.Int(fresh_name('i'))
+    ek = ('tuple', 'int', ('tuple', 'pstr', 'real'))
+    row = VTuple([VInt(i), VTuple([VStr(K.arr[i]), VReal(Vv.arr[i])])])
+    return VSeq(ek, K.length, z3.Lambda([i], to_term(row, ek)), flavor='tuple')
+
+
+@objmethod('Frame3', 'iterrows')
+def f3_iterrows(I, st, t):
+    """iterrows() of the (FeatureA, FeatureB, Score) triplet frame: (index, row) in row order."""
+    A, B, S = t.fields['A'], t.fields['B'], t.fields['S']
+    i = z3.Int(fresh_name('i'))
+    ek = ('tuple', 'int', ('tuple', 'pstr', 'pstr', 'real'))
+    row = VTuple([VInt(i), VTuple([VStr(A.arr[i]), VStr(B.arr[i]), VReal(S.arr[i])])])
+    return VSeq(ek, A.length, z3.Lambda([i], to_term(row, ek)), flavor='tuple')
+
+
+def table_subscript(I, st, t, idx):
+    if isinstance(idx, VStr):
+        if idx.concrete() == 'Feature':
+            return t.fields['keys']
+        v = t.fields['vals']
+        return VSeq('real', v.length, v.arr, flavor='array')
+    return None
+
+
+def table_store(I, st, t, idx, v):
+    if isinstance(idx, VStr) and idx.concrete() != 'Feature' and isinstance(v, VSeq):
+        I.oblige(st, 'shape[table column store]', v.length == t.fields['keys'].length)
+        t.fields['vals'] = materialize(I, st, VSeq('real', v.length, v.arr, flavor='list'))
+        return True
+    return False
+
+
+def m_seq_min(I, st, s):
+    return seq_extreme(I, st, s, 'min')
+
+
+def m_seq_max(I, st, s):
+    return seq_extreme(I, st, s, 'max')
+
+
+_METHODS[(VSeq, 'min')] = m_seq_min
+_METHODS[(VSeq, 'max')] = m_seq_max
